@@ -34,6 +34,10 @@ CHECKS = {
    text="(a) schema/ is compiled with every range-over-map and reflect MapKeys routed through the map-order seam; every (schema of U_2 that ranges over a map, operation, argument) is executed under the sorted order and under every single (thorough: every pair of) deviating iteration order(s), all permutations each; accept/reject and the returned value must be identical. (b) the argument's deep snapshot is compared before/after every call. (c) explicit-state BFS over call histories (depth 3, thorough 4, ~9 calls per schema incl. erroring, default-filling and unit-parsing calls) on one instance: states are deep dumps incl. unexported caches, and every reached instance must equal a fresh one on self-description and a probe set.",
    note="Trusted: maporder rewrite, DeepDump/Snapshot, the probe set; recursive scopes are not used as schema arguments here (C15 reports their non-termination).",
    technique="exhaustive exploration of map-iteration orders (environment nondeterminism, deviation-bounded) plus explicit-state breadth-first search over call histories with a differential fresh-instance oracle", design="DESIGN.md §4.1, §7 C12"),
+ "C15": dict(level="exploration", engine="U+C",
+   text="Every spec A of U_2 as consumer against: a second instance of itself, every single-feature mutation of A at any depth (12 mutation operators), and ~70 unrelated specs incl. every nil/non-nil (min,max) combination for int, float, string and map sizes with overlapping and disjoint ranges; each ValidateCompatibility call runs under the sorted and every single deviating map iteration order (schema/ compiled with the map-order seam). A verdict must be returned (panics are caught, stack exhaustion and hangs kill the supervised worker and are attributed to the pair), be the same in every order, be 'compatible' for the schema against itself, and be 'incompatible' for every pair in the reference MustReject relation (base kind, element/key/value/property types, undeclared / missing required property, enforced id, enum values, discriminator / members, disjoint ranges).",
+   note="Trusted: the MustReject reference (harness/ukit/compat.go), sound by construction (claims nothing outside it); degenerate min>max schemas are exempt from reflexivity and range claims.",
+   technique="exhaustive enumeration of bounded schema pairs (identical / single-feature-mutated / unrelated) x exhaustive map-iteration orders, against a reference relation; supervised workers for non-termination", design="DESIGN.md §7 C15"),
  "C16": dict(level="exploration", engine="U",
    text="For the 5 built-in unit sets and 12 generated definitions (multipliers over {2,10,60,1000}, names that are prefixes of each other, names with regexp metacharacters): every integer in [0,200000], powers of ten, multiplier boundaries and the 63-bit edge formatted (short and long) and parsed back exactly; floats on two grids within tolerance; every well-formed string of 1-3 descending components over a count alphabet in 4 name/spacing variants must parse to the sum; near misses and 64-bit overflows must be errors.",
    note="Trusted: the reference sum/overflow computation in harness/c16; ambiguous strings (bare numbers, decimal counts, negative quantities) are outside the alphabet.",
